@@ -10,7 +10,7 @@ from common import (CASES_HEADER, VERIF, Check, cbool, clist, copt, coq_eval_par
 
 IMPORTS = CASES_HEADER + ("From PV Require Import Base.CasesLib C03.ExecModel C03.ExecReplay.\n"
                           "Open Scope Z_scope.\n")
-PIMPORTS = CASES_HEADER + ("From PV Require Import Base.CasesLib C03.ExecModel C03.ProjectModel C03.ProjectReplay C03.DensityModel C03.DensityReplay.\n"
+PIMPORTS = CASES_HEADER + ("From PV Require Import Base.CasesLib C03.ExecModel C03.ProjectModel C03.ProjectReplay C03.DensityModel C03.DensityReplay C03.PassiveModel C03.PassiveReplay.\n"
                            "Open Scope Z_scope.\n")
 CORPUS = os.path.join(VERIF, "harness", "corpus", "c03.jsonl")
 
@@ -821,6 +821,79 @@ def run_dens_stream(chk, gens, out, corr_broken):
                samples=[{"entries": len(gens[0]["rho"]), "modes": gens[0]["modes"], "trace": gens[0]["trace"]}] if gens else None,
                note="%d splits also evaluated inside the model (sequential = joint)" % len(sj))
 
+
+# =========================================================================== passive lazy post-selection
+LAZY_WITNESS = {"d": 3, "a": 0, "b": 1, "t": None, "spect": [0, 0, 0], "Ls": [[0], [2]]}
+
+
+def gen_lazy(rng):
+    """one photon through one beamsplitter (cos = (1-t^2)/(1+t^2), or 50:50) plus spectator photons:
+    the joint distribution over all modes is rational whatever the sign conventions"""
+    d = rng.randint(3, 4)
+    a, b = rng.sample(range(d), 2)
+    spect = [0] * d
+    for m in range(d):
+        if m not in (a, b) and rng.random() < 0.4:
+            spect[m] = 1
+    t = rng.choice([None, [1, 2], [1, 3], [2, 1]])
+    modes = rng.sample(range(d), rng.randint(2, d))
+    nparts = rng.randint(2, min(3, len(modes)))
+    cuts = sorted(rng.sample(range(1, len(modes)), nparts - 1))
+    Ls = [modes[x:y] for x, y in zip([0] + cuts, cuts + [len(modes)])]
+    return {"d": d, "a": a, "b": b, "t": t, "spect": spect, "Ls": Ls}
+
+
+def lazy_request(g):
+    n = list(g["spect"])
+    n[g["a"]] += 1
+    gate = {"k": "BS50", "modes": [g["a"], g["b"]], "args": {}} if g["t"] is None else \
+        {"k": "BS", "modes": [g["a"], g["b"]], "args": {"theta": 2 * math.atan(g["t"][0] / g["t"][1]), "phi": 0.0}}
+    return {"sim": "passive", "d": g["d"], "cutoff": sum(n) + 3, "shots": None,
+            "instrs": [{"k": "NS", "modes": [], "args": {"n": n}}, gate] + [{"k": "PNM", "modes": L, "args": {}} for L in g["Ls"]]}
+
+
+def lazy_dist(g):
+    if g["t"] is None:
+        c2 = Fraction(1, 2)
+    else:
+        t = Fraction(*g["t"])
+        c2 = ((1 - t * t) / (1 + t * t)) ** 2
+    va = list(g["spect"]); va[g["a"]] += 1
+    vb = list(g["spect"]); vb[g["b"]] += 1
+    return [(va, c2), (vb, 1 - c2)]
+
+
+LAZY_BODY = """
+Definition lcases : list (pdist * nat * Z * list (list nat) * option (list (vec * Q))) := %s.
+Eval vm_compute in mismatches (fun '(dist, d, cutoff, Ls, obs) => lazy_case_ok dist d cutoff Ls obs) lcases.
+"""
+
+
+def run_lazy_stream(chk, gens, out, corr_broken):
+    items = []
+    nerr = 0
+    for g, o in zip(gens, out):
+        if "error" in o:
+            if "postselected modes" not in o["error"]:
+                corr_broken.append("passive lazy-postselection tie: unexpected exception %s for %s" % (o["error"][:120], g))
+                continue
+            obs = "None"
+            nerr += 1
+        else:
+            nz = [b for b in o["branches"] if abs(fr(b["freq"])) > Fraction(1, 10 ** 12)]
+            obs = "(Some %s)" % clist(nz, lambda b: "(%s, %s)" % (clist(b["outcome"], cnat), cq(b["freq"])))
+        dist = clist(lazy_dist(g), lambda vw: "(%s, %s)" % (clist(vw[0], cnat), cq([vw[1].numerator, vw[1].denominator])))
+        items.append("(%s, %s, %s, %s, %s)" % (dist, cnat(g["d"]), cz(sum(g["spect"]) + 4), clist(g["Ls"], lambda L: clist(L, cnat)), obs))
+    res = parse_coq_list(coq_eval_parallel("c03_lazy", [PIMPORTS + LAZY_BODY % ("[" + ";\n".join(items) + "]")], jobs=1)[0])
+    for k in res[0]:
+        corr_broken.append("passive lazy-postselection model != PassiveSimulator (shots=None) for %s: %s" % (gens[k], str(out[k])[:300]))
+    chk.stream("model of the passive simulator's lazy post-selection bookkeeping (positions handed where labels are expected, joint instead of "
+               "conditional probabilities) vs PassiveSimulator with shots=None: branch outcomes and weights, or the spurious exception",
+               len(items), len({json.dumps(g, sort_keys=True) for g in gens}),
+               samples=[{"case": gens[0], "observed": str(out[0])[:200]}],
+               note="%d of the runs raise 'Marginal probabilities cannot be calculated for postselected modes' and the model predicts it; "
+                    "this stream ties the model that pins the open finding C03:passive:mid-circuit-measurement-exact-weights, it does not judge the property" % nerr)
+
 # =========================================================================== weights vs the state's own norm
 K_WEIGHTS_NORM = "C03:%s:exact-weights-vs-state-probabilities"
 
@@ -1045,7 +1118,9 @@ def run(chk: Check):
     sjreqs = gen_seqjoint(chk, max(3, int((400 if T else 40) * SCALE)))
     nreqs = gen_norm(chk.rng, max(6, int((1200 if T else 120) * SCALE)))
     dgens = [gen_dens(chk.rng) for _ in range(max(4, int((600 if T else 50) * SCALE)))]
-    jobs = [{"cases": cases[0::2]}, {"cases": cases[1::2]}, {"proj": proj_requests(pgens) + [g["run"] for g in dgens]}, {"seqjoint": sjreqs, "norm": nreqs}]
+    lgens = [LAZY_WITNESS] + [gen_lazy(chk.rng) for _ in range(max(3, int((300 if T else 30) * SCALE)))]
+    jobs = [{"cases": cases[0::2]}, {"cases": cases[1::2]}, {"proj": proj_requests(pgens) + [g["run"] for g in dgens] + [lazy_request(g) for g in lgens]},
+            {"seqjoint": sjreqs, "norm": nreqs}]
     from concurrent.futures import ThreadPoolExecutor
     with ThreadPoolExecutor(max_workers=4) as ex:
         outs = list(ex.map(lambda j: run_impl("c03_impl.py", j, timeout=6000), jobs))
@@ -1072,7 +1147,8 @@ def run(chk: Check):
                note="%d programs with a skipped conditioned measurement gave a wrong sample" % stats["cond_meas_failures"])
 
     run_proj_stream(chk, pgens, outs[2]["proj"][:2 * len(pgens)], corr_broken)
-    run_dens_stream(chk, dgens, outs[2]["proj"][2 * len(pgens):], corr_broken)
+    run_dens_stream(chk, dgens, outs[2]["proj"][2 * len(pgens):2 * len(pgens) + len(dgens)], corr_broken)
+    run_lazy_stream(chk, lgens, outs[2]["proj"][2 * len(pgens) + len(dgens):], corr_broken)
     run_seqjoint_stream(chk, sjreqs, outs[3]["seqjoint"])
     run_norm_stream(chk, nreqs, outs[3]["norm"])
 
